@@ -369,6 +369,22 @@ def _defaulting_ok(fi, a, carrier, stagef):
                 return None
             return 'supplied options replaced by %s' % unparse(a.value)[:60]
     guards = guards_of(fi, a)
+    if not guards and isinstance(a.value, ast.BoolOp) and isinstance(a.value.op, ast.Or) and len(a.value.values) == 2 \
+            and isinstance(a.value.values[0], ast.Name) and a.value.values[0].id == carrier:
+        # x = x or {...}   is   if not x: x = {...}
+        v = _literal(a.value.values[1])
+        if v is _NoLit or not isinstance(v, dict):
+            return 'default is not a literal dict'
+        for k, val in v.items():
+            d = stagef.defaults.get(k)
+            if d is None:
+                return 'default key %r is not a formal of %s' % (k, stagef.name)
+            if d is _ANY:
+                continue
+            dv = _literal(d)
+            if dv is _NoLit or dv != val:
+                return 'default %s=%r differs from the signature default %r of %s' % (k, val, dv, stagef.name)
+        return None
     if not guards:
         return 'unconditional reassignment'
     t, pol = guards[-1]
